@@ -95,7 +95,9 @@ def guarded_phase(ctx, name, fn):
 def run(ctx, mod, a):
     prop = ctx.prop
     theorems, audit_problems = {}, []
-    checker = "lake build D3.Audit.%s && lake env lean D3/Audit/%s.lean  (#print axioms)" % (prop, prop)
+    checker = ("cd lean && lake build D3.Driver.%s D3.Audit.%s && LEAN_PATH=.lake/build/lib/lean lean D3/Audit/%s.lean  "
+               "(#print axioms of every property theorem; thorough: lake env leanchecker D3.Properties.%s)"
+               % (prop, prop, prop, prop))
     gen_info = {}
     driver_ok = True
     if not a.no_lean:
